@@ -79,6 +79,16 @@ def gen_data(ctx, d, nrec):
             T.write(">t%04d\n%s\n" % (i, "\n".join(tpl[k:k + 60] for k in range(0, len(tpl), 60))))
     for f in (F, R, S, T):
         f.close()
+    # obipcr gets the reader's 1 MiB chunks as its batches, whatever --batch-size says: a template file of several MiB is needed
+    # for several workers to be inside the PCR code (its C scratch structures) at the same time
+    tpl = open(os.path.join(d, "templates.fasta")).read().split(">")[1:]
+    with open(os.path.join(d, "templates_big.fasta"), "w") as TB:
+        rep = 0
+        while TB.tell() < 3600000 and tpl:
+            for r in tpl:
+                head, _, body = r.partition("\n")
+                TB.write(">%s_%d\n%s" % (head.split()[0], rep, body))
+            rep += 1
     # long FASTA records without qualities: written as FASTQ they get the shared default quality vector
     with open(os.path.join(d, "long.fasta"), "w") as L:
         for i in range(max(60, nrec // 2)):
@@ -205,6 +215,7 @@ def command_lines(d, pf, pr):
         ("obimultiplex-whole", ["obimultiplex", "-t", os.path.join(d, "ngsfilter.txt"), "-e", "2", "--keep-errors", s]),
         ("obimultiplex-whole-noerr", ["obimultiplex", "-t", os.path.join(d, "ngsfilter.txt"), "-e", "2", s]),
         ("obipcr", ["obipcr", "--forward", pf, "--reverse", pr, "-e", "2", "-L", "200", os.path.join(d, "templates.fasta")]),
+        ("obipcr-big", ["obipcr", "--forward", pf, "--reverse", pr, "-e", "2", "-L", "200", os.path.join(d, "templates_big.fasta")]),
         ("obicount", ["obicount", s]),
         ("obisummary", ["obisummary", "--json-output", s]),
         ("obicsv", ["obicsv", "--ids", "--count", "-s", "-k", "sample", s]),
